@@ -1,6 +1,13 @@
 """Functions whose decision structure / value expressions are held against the reviewed reference (rules/census_table.json),
 per property.  '+' = also record writes through &mut parameters (state effects)."""
+# durable-write primitives recorded as effects ('@' + this pattern after a function name)
+S = '@^(Batch::(put|put_kv|delete|commit)|<DB as (Put|Delete)>::(put|delete))$'
 CENSUS = {
+    'C03': ['Storage::filter_block' + S, 'Storage::update_block_number' + S],
+    'C04': ['Storage::rollback_to_block' + S],
+    'C08': ['Storage::add_matched_blocks' + S, 'Storage::remove_matched_blocks' + S, 'Storage::update_min_filtered_block_number' + S],
+    'C09': ['Storage::update_filter_scripts' + S],
+    'C16': ['Storage::add_fetched_header' + S, 'Storage::add_fetched_tx' + S],
     'C01': ['check_if_response_is_matched', 'check_continuous_headers', 'verify_mmr_proof',
             '<HeaderView as HeaderUtils>::is_parent_of', '<VerifiableHeader as VerifiableHeaderPatch>::patched_is_valid',
             '<VerifiableHeader as VerifiableHeaderPatch>::checked_total_difficulty',
@@ -12,8 +19,9 @@ CENSUS = {
             'LatestBlockFilterHashes::get_last_number'],
     'C07': ['+CheckPoints::add_check_points', '+CheckPoints::remove_first_n_check_points', 'CheckPoints::number_of_first_check_point',
             'CheckPoints::number_of_last_check_point', 'CheckPoints::number_of_next_check_point', 'CheckPoints::if_require_next_check_point',
-            'Peers::required_peers_count'],
-    'C12': ['ProveState::is_parent_of', 'check_last_state', 'ProveState::new_child', 'ProveState::is_same_as'],
+            'Peers::required_peers_count', 'Storage::update_check_points' + S, 'Storage::update_max_check_point_index' + S],
+    'C12': ['ProveState::is_parent_of', 'check_last_state', 'ProveState::new_child', 'ProveState::is_same_as',
+            'Storage::update_last_state' + S, 'Storage::update_last_n_headers' + S],
     'C14': ['verify_tau', 'verify_total_difficulty'],
     'C15': ['sample_blocks', 'estimate_k', 'estimate_samples_count', 'multiply', 'FlyClientPDF::gen_x', 'FlyClientPDF::random_sample',
             'FlyClientPDF::sampling', 'LightClientProtocol::build_prove_request_content',
@@ -24,4 +32,4 @@ CENSUS = {
 def run(ctx, pid):
     from engine import census
     for f in CENSUS.get(pid, []):
-        census.check(ctx, pid + '.ref', f.lstrip('+'))
+        census.check(ctx, pid + '.ref', f.lstrip('+').split('@')[0])
